@@ -7,13 +7,14 @@ text), so this stays valid on a modified tree."""
 import json, os, subprocess, sys, tempfile, shutil, concurrent.futures, re
 
 ENV = dict(os.environ, GOFLAGS="-mod=mod", GOPROXY="off", GOSUMDB="off", GOTOOLCHAIN="local")
+REPO = os.environ.get("VERIF_REPO", "/repo") + "/go"
 ENTRY = "github.com/hknutzen/Netspoc-Approve/go/pkg/drc.VerifMain"
 
 def run(scratch, only=None, verbose=False):
     cases_dir = os.path.join(scratch, "cases")
-    subprocess.run(["/verif/bin/dumpcases", "/repo/go/testdata", cases_dir], check=True, stdout=subprocess.DEVNULL)
+    subprocess.run(["/verif/bin/dumpcases", REPO + "/testdata", cases_dir], check=True, stdout=subprocess.DEVNULL)
     drc = os.path.join(scratch, "drc")
-    subprocess.run(["go", "build", "-o", drc, "./cmd/drc"], cwd="/repo/go", env=ENV, check=True)
+    subprocess.run(["go", "build", "-o", drc, "./cmd/drc"], cwd=REPO, env=ENV, check=True)
     cases = json.load(open(os.path.join(cases_dir, "cases.json")))
     # the 10000-line ACL case is outside the interpreter's step budget
     cases = [c for c in cases if not c["Id"].startswith("ios_long-acl")]
@@ -42,7 +43,7 @@ def run(scratch, only=None, verbose=False):
     bf = os.path.join(scratch, "batch.json")
     json.dump(batch, open(bf, "w"))
     out = os.path.join(scratch, "batch-out.json")
-    p = subprocess.run(["/verif/bin/gosx", "-batch", bf, "-out", out, "-maxsteps", "200000000"], capture_output=True, text=True, env=ENV)
+    p = subprocess.run(["/verif/bin/gosx", "-repo", REPO, "-batch", bf, "-out", out, "-maxsteps", "200000000"], capture_output=True, text=True, env=ENV)
     if p.returncode != 0 or not os.path.exists(out):
         return {"error": "engine batch failed: " + p.stdout + p.stderr, "cases": len(cases), "mismatch": []}
     res = json.load(open(out))
